@@ -10,10 +10,12 @@ import (
 	"os"
 	"sync"
 
+	"verifharness/drivers/alpn"
 	"verifharness/drivers/hsd"
 	"verifharness/drivers/mux"
 	"verifharness/drivers/reg"
 	"verifharness/drivers/roots"
+	"verifharness/drivers/store"
 )
 
 func die(err error) {
@@ -28,11 +30,17 @@ var families = map[string]famFn{
 	"reg": func(in, out string, seed int64, par int, tier string) error {
 		return runFamily(in, out, seed, par, reg.Run, func(b reg.Behaviour) string { return b.Id })
 	},
+	"alpn": func(in, out string, seed int64, par int, tier string) error {
+		return runFamily(in, out, seed, par, alpn.Run, func(b alpn.Behaviour) string { return b.Id })
+	},
 	"hsd": func(in, out string, seed int64, par int, tier string) error {
 		return runFamily(in, out, seed, par, hsd.Run, func(b hsd.Behaviour) string { return b.Id })
 	},
 	"mux": func(in, out string, seed int64, par int, tier string) error {
 		return runFamily(in, out, seed, par, mux.Run, func(b mux.Instance) string { return b.Id })
+	},
+	"store": func(in, out string, seed int64, par int, tier string) error {
+		return runFamily(in, out, seed, par, store.Run, func(b store.Behaviour) string { return b.Id })
 	},
 	"roots": func(in, out string, seed int64, par int, tier string) error {
 		return runFamily(in, out, seed, par, roots.Run, func(b roots.Behaviour) string { return b.Id })
